@@ -108,9 +108,9 @@ Obs(w, s) == [out |-> s.out, count |-> s.count, mode |-> s.mode, bmode |-> s.bmo
               locked |-> s.count > 0, disk |-> s.phys = "w", bdisk |-> (w = "tree" /\ s.bmode = "w")]
 Core(s) == <<s.count, s.mode, s.bmode, s.phys, s.ext>>
 
-(* ---- judging a recorded call sequence (row = [w, ops, obs]): fold Step over ops, find the first call whose
-   observation differs from the specified one and classify it by the clauses of C28.  Before that call real and
-   specified states agree, so the clauses are evaluated with the specified pre-state.  *)
+(* ---- judging a recorded call sequence (row = [w, ops, obs]): fold Step over ops and classify every call whose
+   observation differs from the specified one by the clauses of C28 (evaluated with the specified pre-state: the
+   expected physical-lock log is a function of the call sequence).  `at` is the first differing call. *)
 \* failed clauses as <<clause, call, mode before the call>>; pre = state before the call, t = specified state after it
 FailedAt(row, pre, t, k) ==
     LET e == Obs(row.w, t)
@@ -124,11 +124,15 @@ FailedAt(row, pre, t, k) ==
         \cup (IF pre.mode = "r" /\ op \in WriteOps THEN {<<"write_in_read", op, pre.mode>>} ELSE {})
         \* unlocking more often than locking is refused
         \cup (IF pre.count = 0 /\ op = "unlock" THEN {<<"extra_unlock", op, pre.mode>>} ELSE {})
-RECURSIVE Scan(_, _, _)
-Scan(row, s, k) ==
-    IF k > Len(row.ops) THEN [at |-> 0, failed |-> {}]
-    ELSE LET t == Step(row.w, s, row.ops[k]) IN
-         IF row.obs[k] # Obs(row.w, t) THEN [at |-> k, failed |-> FailedAt(row, s, t, k)]
-         ELSE Scan(row, t, k + 1)
-Judge(row) == Scan(row, Init0, 1)
+\* The specified run depends on the call sequence only.  Every call whose observation differs from it is classified;
+\* the scan does not stop at the first difference, so that the CONSEQUENCES of a bookkeeping slip (no release at the
+\* matching last unlock, a surplus unlock accepted) are judged even if the slip itself is not one of the clauses.
+RECURSIVE Scan(_, _, _, _, _)
+Scan(row, s, k, first, acc) ==
+    IF k > Len(row.ops) THEN [at |-> first, failed |-> acc]
+    ELSE LET t == Step(row.w, s, row.ops[k])
+             differs == row.obs[k] # Obs(row.w, t)
+         IN Scan(row, t, k + 1, IF first = 0 /\ differs THEN k ELSE first,
+                 IF differs THEN acc \cup FailedAt(row, s, t, k) ELSE acc)
+Judge(row) == Scan(row, Init0, 1, 0, {})
 =============================================================================
